@@ -85,6 +85,11 @@ def build(force=False):
                 z.pop("_ts", None)
                 if isinstance(r, str):
                     raise env.Machinery("synthetic zone table disagrees with zoneinfo: " + r)
+                if name != "Verif/BackToBack":
+                    r = zones.crosscheck_wall(z, rnd)
+                    if isinstance(r, str):
+                        raise env.Machinery("synthetic zone (wall look-up) disagrees with zoneinfo - is the description "
+                                            "self-consistent (explicit transitions vs footer rule)? " + r)
         finally:
             zoneinfo.reset_tzpath(old)
         with open(out + ".tmp", "w") as f:
